@@ -31,7 +31,7 @@ STATE_MEASURE = "(propagator kind, call kind, direction/start class, #live itera
 PROBES = [
     "event_items", "event_checked", "pair_checked_no_crossing", "crossing_with_event", "bisect_sharpness_checked", "label_checked",
     "two_listeners_fired_same_step", "listener_reused_sequentially", "reuse_after_cancel", "two_live_tasks_same_object",
-    "visibility_skipped_below_horizon", "visibility_caller_list_reused", "light_model_checked", "condition_false_no_event",
+    "visibility_skipped_below_horizon", "visibility_caller_list_reused", "iteration_started_from_an_event_state", "sample_exactly_on_a_zero", "light_model_checked", "condition_false_no_event",
     "interleaved_shared_listener_interference",
 ]
 REAL_VS_STUB = "real: listeners, Speaker.listen/_bisect, propagators, Ephem, stations, frames, analytic Sun; stub: wall clock (virtual, jumped before TerminatorListener()), EOP storage (simulated disk); oracle: pristine node for states at arbitrary dates + independent numpy models of every watched quantity"
@@ -114,6 +114,7 @@ def gen_plan(rng, tier, i):
         "real_eop": real_eop,
         "ephem_order": rng.choice([8, 8, 6, 10]),
         "eps_bisect_us": rng.choice([1, 1, 10, 1000]),
+        "post": rng.choice([None, None, {"kind": rng.choice(["from_event", "sample_on_zero"]), "kep": gen_iter.rand_kep(rng), "epoch": [rng.randint(55000, 59000), float(rng.randint(0, 86399))], "step_s": rng.choice([60, 120, 300])}]),
     }
     ops = []
     ntasks = 0
@@ -640,10 +641,75 @@ class Hooks:
                     )
 
 
+def post_scenarios(sim, plan, ctx):
+    """Two short scripted histories on fresh objects of the run's node (after the scheduled operations):
+    A. an iteration started *from an event state* (what find_event / a search loop hands back) with the same listener: the samples
+       of the new iteration are samples, not events;
+    B. an orbit given exactly on a zero of the watched quantity (at its ascending node) iterated from its own epoch: the crossing
+       is reported once, at the epoch, not a step later."""
+    post = plan["knobs"].get("post")
+    if not post:
+        return
+    n = sim.node
+    with n:
+        L = n.mod("beyond.propagators.listeners")
+        Kepler = n.mod("beyond.propagators.kepler").Kepler
+        td = n.timedelta
+        date = world.mk_date(n, post["epoch"])
+        kep = list(post["kep"])
+        mu = 3.986004418e14
+        period = 2 * math.pi * math.sqrt(kep[0] ** 3 / mu)
+        step = post["step_s"]
+        if post["kind"] == "from_event":
+            orb = n.Orbit(kep, date, "keplerian", "EME2000", Kepler())
+            lis = L.NodeListener()
+            ev = None
+            for p in orb.iter(stop=td(seconds=1.2 * period), step=td(seconds=step), listeners=lis):
+                if p.event is not None:
+                    ev = p
+                    break
+            if ev is None:
+                return
+            ctx.fault("iter_cancel")
+            ctx.probe("iteration_started_from_an_event_state")
+            k = 0
+            for p in ev.iter(stop=td(seconds=4 * step), step=td(seconds=step), listeners=lis):
+                off = (p.date - ev.date).total_seconds()
+                on_grid = abs(off - round(off / step) * step) < 1e-5
+                if on_grid and round(off / step) >= 1:
+                    ctx.checks += 1
+                    k += 1
+                    if p.event is not None:
+                        ctx.violate(
+                            "sound",
+                            {"kind": "sample_flagged_as_event", "scenario": "from_event"},
+                            f"post-scenario A: iterating from the state of a '{ev.event}' event with the same listener, the plain sample at +{off:.1f} s carries the event '{p.event}'",
+                        )
+        else:
+            kep[4] = 0.0  # argument of perigee
+            kep[5] = 0.0  # true anomaly: the orbit is given exactly at its ascending node
+            orb = n.Orbit(kep, date, "keplerian", "EME2000", Kepler())
+            lis = L.NodeListener()
+            ctx.probe("sample_exactly_on_a_zero")
+            evs = []
+            for p in orb.iter(stop=td(seconds=0.4 * period), step=td(seconds=step), listeners=lis):
+                if p.event is not None:
+                    evs.append((p.date - date).total_seconds())
+            ctx.checks += 1
+            if len(evs) > 1 or any(e > 0.5 * step for e in evs):
+                ctx.violate(
+                    "event-between-samples",
+                    {"kind": "crossing_on_a_sample_misreported", "scenario": "sample_on_zero", "n": len(evs)},
+                    f"post-scenario B: an orbit given at its ascending node, iterated from its epoch over 0.4 revolution with step {step} s: node events at {['%.6f s' % e for e in evs]} after the epoch (expected at most one, at the epoch)",
+                )
+
+
 def run_plan(plan, ctx):
     sim = itersim.Sim(plan, ctx, "C10")
     sim.hooks = Hooks(sim)
     sim.run()
+    if ctx.violation is None:
+        post_scenarios(sim, plan, ctx)
     ctx.nontrivial = bool(ctx.probes.get("event_checked")) and any(ctx.probes.get(p) for p in ("listener_reused_sequentially", "reuse_after_cancel", "two_live_tasks_same_object", "visibility_caller_list_reused"))
 
 
